@@ -395,8 +395,16 @@ func RunStress(b *abs.Built, dir string, seed int64, dur time.Duration, rec *rec
 	if err != nil {
 		return err
 	}
+	// behind a pass-through proxy that answers monitor_cancel (the built-in server does not implement it)
+	px, err := proxy.New(in.Sock+".px", in.Sock)
+	if err != nil {
+		in.Close()
+		return err
+	}
+	defer px.Close()
+	px.Answer("monitor_cancel", "{}")
 	l := logr.Discard()
-	cl, err := client.NewOVSDBClient(in.Ctx.ClientDB, client.WithEndpoint("unix:"+in.Sock), client.WithLogger(&l),
+	cl, err := client.NewOVSDBClient(in.Ctx.ClientDB, client.WithEndpoint("unix:"+px.Path), client.WithLogger(&l),
 		client.WithReconnect(2*time.Second, backoff.NewConstantBackOff(2*time.Millisecond)))
 	if err != nil {
 		return err
@@ -425,7 +433,7 @@ func RunStress(b *abs.Built, dir string, seed int64, dur time.Duration, rec *rec
 			return err
 		}
 	}
-	var mixed, reads, calls, stuckCalls, monitorsAdded, churn int64
+	var mixed, reads, calls, stuckCalls, monitorsAdded, monitorsCancelled, churn int64
 	var lastName atomic.Value
 	stop := make(chan struct{})
 	var wg sync.WaitGroup
@@ -633,15 +641,21 @@ func RunStress(b *abs.Built, dir string, seed int64, dur time.Duration, rec *rec
 			select {
 			case <-stop:
 				return
-			case <-time.After(40 * time.Millisecond):
+			case <-time.After(10 * time.Millisecond):
 			}
 			ctx, cancel := context.WithTimeout(context.Background(), 500*time.Millisecond)
 			done := make(chan struct{})
 			go func() {
 				defer close(done)
-				_, err := cl.Monitor(ctx, &client.Monitor{Method: ovsdb.ConditionalMonitorRPC, Tables: []client.TableMonitor{{Table: "T3", Fields: []string{"name"}}}})
+				ck, err := cl.Monitor(ctx, &client.Monitor{Method: ovsdb.ConditionalMonitorRPC, Tables: []client.TableMonitor{{Table: "T3", Fields: []string{"name"}}}})
 				if err == nil {
-					atomic.AddInt64(&monitorsAdded, 1)
+					n := atomic.AddInt64(&monitorsAdded, 1)
+					if n%4 != 0 {
+						// and cancelled again while the readers go on
+						if cl.MonitorCancel(ctx, ck) == nil {
+							atomic.AddInt64(&monitorsCancelled, 1)
+						}
+					}
 				}
 			}()
 			select {
@@ -654,9 +668,14 @@ func RunStress(b *abs.Built, dir string, seed int64, dur time.Duration, rec *rec
 		}
 	}()
 	// connection churn
+	// the first half on a steady connection (monitors come and go, readers read), the second with the connection cut every 15 ms
 	end := time.Now().Add(dur)
+	half := time.Now().Add(dur / 2)
 	for time.Now().Before(end) {
 		time.Sleep(15 * time.Millisecond)
+		if time.Now().Before(half) {
+			continue
+		}
 		r := runCall("Disconnect", func(context.Context) error { cl.Disconnect(); return nil })
 		if !r.Returned {
 			atomic.AddInt64(&stuckCalls, 1)
@@ -676,5 +695,5 @@ func RunStress(b *abs.Built, dir string, seed int64, dur time.Duration, rec *rec
 		dump = goroutineDump()
 	}
 	return rec.Emit(map[string]interface{}{"ev": "stress", "reads": reads, "mixed": mixed, "calls": calls, "stuck": stuckCalls,
-		"disconnects": churn, "monitors_added": monitorsAdded, "races": 0, "report": "", "dump": dump})
+		"disconnects": churn, "monitors_added": monitorsAdded, "monitors_cancelled": monitorsCancelled, "races": 0, "report": "", "dump": dump})
 }
